@@ -385,7 +385,12 @@ pub fn run_scenario(sc: &Value, dir: &str) -> Vec<Value> {
             }
             other => panic!("driver: unknown load step {other}"),
         }
+        let failed_stress = d == "stress" && res["ok"] == json!(false);
         log.emit(res);
+        if failed_stress {
+            // the server has stopped serving: the verdict is in, the remaining rounds would only wait for their deadlines
+            break;
+        }
     }
     // wind down
     sh.release_all.store(true, Ordering::SeqCst);
